@@ -190,3 +190,50 @@ Proof.
   split; [|split; [exact Hax | unfold in_range; lia]].
   apply fold_free_in; [exact Hx|]. apply Forall_forall. intros y Hy. specialize (Hb y Hy). lia.
 Qed.
+
+(** * a freshly mounted volume: the hint is 0, nothing lies below it *)
+Lemma hint_zero_inv s : s_hint s = 0 -> hint_inv s.
+Proof. intros H. unfold hint_inv, hint_ok. rewrite H. intros c Hc. lia. Qed.
+Lemma write_at_hint s off d s' : write_at s off d = Ok s' -> s_hint s' = s_hint s.
+Proof. intros H. apply DirState.write_at_ok in H. destruct H as [_ ->]. reflexivity. Qed.
+Lemma flush_copies_hint n : forall s b i s', flush_copies s b i n = Ok s' -> s_hint s' = s_hint s.
+Proof.
+  induction n as [|k IH]; intros s b i s' H; cbn [flush_copies] in H; [inversion H; reflexivity|].
+  destruct (write_at _ _ _) as [s1|] eqn:E; [|discriminate]. cbn [bind] in H. apply IH in H. rewrite H. eapply write_at_hint; exact E.
+Qed.
+Lemma flush_fat_hint s s' : flush_fat s = Ok s' -> s_hint s' = s_hint s.
+Proof. unfold flush_fat. destruct (s_ro s); [discriminate|]. apply flush_copies_hint. Qed.
+Lemma write_bpb_hint s s' : write_bpb s = Ok s' -> s_hint s' = s_hint s.
+Proof.
+  unfold write_bpb. intros H.
+  destruct (write_at s 0 _) as [s1|] eqn:E1; [|discriminate]. cbn [bind] in H.
+  destruct (write_at s1 510 _) as [s2|] eqn:E2; [|discriminate]. cbn [bind] in H.
+  apply write_at_hint in E1, E2.
+  destruct (ft s =? Gen.FAT_TYPE_FAT32).
+  - destruct (write_at s2 _ _) as [s3|] eqn:E3; [|discriminate]. cbn [bind] in H. apply write_at_hint in E3, H. congruence.
+  - inversion H; subst. congruence.
+Qed.
+Lemma mark_dirty_hint s s' : mark_dirty s = Ok s' -> s_hint s' = s_hint s.
+Proof.
+  unfold mark_dirty. intros H.
+  destruct (shutdown_mask (ft s)) as [m|].
+  - destruct (flush_fat _) as [s1|] eqn:E; [|discriminate]. cbn [bind] in H. apply flush_fat_hint in E. apply write_bpb_hint in H.
+    cbn [s_hint upd_hdr upd_fat] in *. congruence.
+  - cbn [bind] in H. apply write_bpb_hint in H. cbn [s_hint upd_hdr] in H. exact H.
+Qed.
+Theorem mount_hint_inv d dsize ro pc s dirty : mount d dsize ro pc = Ok (s, dirty) -> s_hint s = 0 /\ hint_inv s.
+Proof.
+  intros H. assert (Hz : s_hint s = 0); [|split; [exact Hz | apply hint_zero_inv; exact Hz]].
+  unfold mount in H. cbv zeta in H.
+  repeat match type of H with
+  | (if ?c then _ else _) = _ => destruct c; try discriminate H
+  | bind ?X _ = _ => let E := fresh "E" in destruct X eqn:E; cbn [bind] in H; try discriminate H
+  end.
+  all: inversion H; subst; clear H.
+  all: repeat match goal with
+  | E : (if ?c then _ else _) = Ok _ |- _ => destruct c
+  | E : Ok _ = Ok _ |- _ => inversion E; subst; clear E
+  end.
+  all: try reflexivity.
+  all: match goal with E : mark_dirty _ = Ok _ |- _ => apply mark_dirty_hint in E; exact E end.
+Qed.
